@@ -71,11 +71,146 @@ def translate_kinds(tree):
     )
 
 
+# ---------------------------------------------------------------------------
+# ConditionEvaluator.visit_BoolOp: the and / or bookkeeping
+
+
+def _bfail(node, why):
+    raise TranslateError(f"{REL}:{getattr(node, 'lineno', '?')}: visit_BoolOp: {why}: {ast.dump(node)[:160]}")
+
+
+SIDE = {"left_varmap": "fst res", "right_varmap": "snd res"}
+
+
+def _res_attr(e):
+    """result.left_varmap / result.right_varmap -> the attribute name"""
+    if isinstance(e, ast.Attribute) and isinstance(e.value, ast.Name) and e.value.id == "result" and e.attr in SIDE:
+        return e.attr
+    return None
+
+
+def bool_cond(e):
+    if isinstance(e, ast.Compare) and len(e.ops) == 1 and _res_attr(e.left) and isinstance(e.comparators[0], ast.Constant) and e.comparators[0].value is None:
+        t = f"(is_none ({SIDE[_res_attr(e.left)]}))"
+        if isinstance(e.ops[0], ast.Is):
+            return t
+        if isinstance(e.ops[0], ast.IsNot):
+            return f"(negb {t})"
+    if isinstance(e, ast.UnaryOp) and isinstance(e.op, ast.Not):
+        return f"(negb {bool_cond(e.operand)})"
+    _bfail(e, "unsupported test on result")
+
+
+def bool_branch(stmts):
+    """one branch of the per-operand if-chain: either an early return, or
+    narrowed_varmap.update(X); stack.enter_context(self.ctx.narrow_variables(X)); [remaining_varmaps.append(Y)]"""
+    if len(stmts) == 1 and isinstance(stmts[0], ast.If):
+        st = stmts[0]
+        return f"(if {bool_cond(st.test)} then {bool_branch(st.body)} else {bool_branch(st.orelse)})"
+    if len(stmts) == 1 and isinstance(stmts[0], ast.Return):
+        v = stmts[0].value
+        if not (isinstance(v, ast.Call) and getattr(v.func, "id", None) == "ConditionReturn" and not v.args):
+            _bfail(stmts[0], "early exit must be ConditionReturn(<side>=_unite_with_remaining(...), condition=...)")
+        kws = {k.arg: k.value for k in v.keywords}
+        sides = [k for k in kws if k in SIDE]
+        if set(kws) - {"condition"} != set(sides) or len(sides) != 1:
+            _bfail(stmts[0], "early exit must set exactly one of left_varmap / right_varmap")
+        side = sides[0]
+        u = kws[side]
+        if not (isinstance(u, ast.Call) and getattr(u.func, "id", None) == "_unite_with_remaining" and len(u.args) == 2
+                and getattr(u.args[0], "id", None) == "remaining_varmaps" and _res_attr(u.args[1])):
+            _bfail(u, "expected _unite_with_remaining(remaining_varmaps, result.<side>)")
+        val = f"(unite_with_remaining remaining ({SIDE[_res_attr(u.args[1])]}))"
+        return f"(BReturn {'(' + val + ', None)' if side == 'left_varmap' else '(None, ' + val + ')'})"
+    upd = ctxn = app = None
+    for st in stmts:
+        c = st.value if isinstance(st, ast.Expr) else None
+        if not isinstance(c, ast.Call) or not isinstance(c.func, ast.Attribute) or len(c.args) != 1:
+            _bfail(st, "unsupported statement")
+        tgt, meth = c.func.value, c.func.attr
+        if getattr(tgt, "id", None) == "narrowed_varmap" and meth == "update" and _res_attr(c.args[0]) and upd is None:
+            upd = _res_attr(c.args[0])
+        elif getattr(tgt, "id", None) == "remaining_varmaps" and meth == "append" and _res_attr(c.args[0]) and app is None:
+            app = _res_attr(c.args[0])
+        elif (getattr(tgt, "id", None) == "stack" and meth == "enter_context" and isinstance(c.args[0], ast.Call)
+              and isinstance(c.args[0].func, ast.Attribute) and c.args[0].func.attr == "narrow_variables"
+              and len(c.args[0].args) == 1 and _res_attr(c.args[0].args[0]) and ctxn is None):
+            ctxn = _res_attr(c.args[0].args[0])
+        else:
+            _bfail(st, "unsupported statement")
+    if upd is None or ctxn is None or upd != ctxn:
+        _bfail(stmts[0], "a continuing branch must update narrowed_varmap and narrow the context with the same varmap")
+    if app is not None and app == upd:
+        _bfail(stmts[0], "remaining_varmaps must get the other side")
+    x = f"(the ({SIDE[upd]}))"
+    rem = f"(remaining ++ [the ({SIDE[app]})])" if app else "remaining"
+    return f"(BContinue {x} ({x} ++ narrowed) {rem})"
+
+
+def translate_boolop(tree):
+    fn = find(tree, "ConditionEvaluator.visit_BoolOp", REL)
+    body = [st for st in fn.body if not (isinstance(st, ast.Expr) and isinstance(st.value, ast.Constant))]
+    want = ["If", "Assign", "Assign", "Assign", "Assign", "Assign", "With", "If"]
+    if [type(st).__name__ for st in body] != want:
+        _bfail(fn, f"expected statements {want}")
+    if not (isinstance(body[0].test, ast.Attribute) and body[0].test.attr == "validation_mode"):
+        _bfail(body[0], "first statement must be the validation_mode shortcut")
+    inits = {st.targets[0].id: ast.dump(st.value) for st in body[1:6]}
+    exp = {"active": ast.dump(ast.parse("[]").body[0].value), "remaining_varmaps": ast.dump(ast.parse("[]").body[0].value),
+           "narrowed_varmap": ast.dump(ast.parse("{}").body[0].value),
+           "is_and": ast.dump(ast.parse("isinstance(node.op, ast.And)").body[0].value),
+           "stack": ast.dump(ast.parse("contextlib.ExitStack()").body[0].value)}
+    if inits != exp:
+        _bfail(fn, "unexpected initialisation of active / is_and / remaining_varmaps / narrowed_varmap / stack")
+    w = body[6]
+    if not (len(w.items) == 1 and getattr(w.items[0].context_expr, "id", None) == "stack" and len(w.body) == 1 and isinstance(w.body[0], ast.For)):
+        _bfail(w, "expected `with stack: for operand in node.values:`")
+    loop = w.body[0]
+    if not (getattr(loop.target, "id", None) == "operand" and ast.dump(loop.iter) == ast.dump(ast.parse("node.values").body[0].value)
+            and len(loop.body) == 3 and not loop.orelse):
+        _bfail(loop, "expected `for operand in node.values:` with three statements")
+    s0, s1, s2 = loop.body
+    if ast.dump(s0) != ast.dump(ast.parse("result = self.visit(operand)").body[0]):
+        _bfail(s0, "expected result = self.visit(operand)")
+    if ast.dump(s1) != ast.dump(ast.parse("active.append(result.condition)").body[0]):
+        _bfail(s1, "expected active.append(result.condition)")
+    if not (isinstance(s2, ast.If) and getattr(s2.test, "id", None) == "is_and"):
+        _bfail(s2, "expected `if is_and:`")
+    and_step, or_step = bool_branch(s2.body), bool_branch(s2.orelse)
+    end = body[7]
+    if not (getattr(end.test, "id", None) == "is_and" and len(end.body) == 1 and len(end.orelse) == 1):
+        _bfail(end, "expected the final `if is_and: return ... else: return ...`")
+
+    def final(ret):
+        v = ret.value if isinstance(ret, ast.Return) else None
+        if not (isinstance(v, ast.Call) and getattr(v.func, "id", None) == "ConditionReturn" and len(v.args) == 1):
+            _bfail(ret, "expected return ConditionReturn(ConditionList(active), left_varmap=..., right_varmap=...)")
+        kws = {k.arg: k.value for k in v.keywords}
+        if set(kws) != {"left_varmap", "right_varmap"}:
+            _bfail(ret, "final result must set both varmaps")
+
+        def side(e):
+            if getattr(e, "id", None) == "narrowed_varmap":
+                return "(Some narrowed)"
+            if (isinstance(e, ast.Call) and getattr(e.func, "id", None) == "unite_varmaps" and len(e.args) == 1
+                    and getattr(e.args[0], "id", None) == "remaining_varmaps"):
+                return "(unite_varmaps remaining)"
+            _bfail(e, "unsupported final varmap")
+
+        return f"({side(kws['left_varmap'])}, {side(kws['right_varmap'])})"
+
+    return (
+        "Definition gen_and_step (narrowed : varmap) (remaining : list varmap) (res : cret) : bstep :=\n  " + and_step + ".\n\n"
+        "Definition gen_or_step (narrowed : varmap) (remaining : list varmap) (res : cret) : bstep :=\n  " + or_step + ".\n\n"
+        "Definition gen_and_end (narrowed : varmap) (remaining : list varmap) : cret :=\n  " + final(end.body[0]) + ".\n\n"
+        "Definition gen_or_end (narrowed : varmap) (remaining : list varmap) : cret :=\n  " + final(end.orelse[0]) + ".\n"
+    )
+
+
 def pins(repo):
     tree = parse(repo, REL)
     out = {}
     for name, qual in [
-        ("pin_visit_BoolOp", "ConditionEvaluator.visit_BoolOp"),
         ("pin_visit_is_of_type", "ConditionEvaluator.visit_is_of_type"),
         ("pin_visit_UnaryOp", "ConditionEvaluator.visit_UnaryOp"),
         ("pin_visit_Compare", "ConditionEvaluator.visit_Compare"),
@@ -113,7 +248,8 @@ def translate(repo):
         "(* GENERATED by harness/translate/typeeval.py from pyanalyze/type_evaluation.py — do not edit. *)\n"
         "From Coq Require Import List Bool Arith.\nImport ListNotations.\nRequire Import PV.Eval.TypeEval.\n\n"
         "(* ConditionEvaluator.visit_Call: is_provided / is_positional / is_keyword *)\n"
-        + translate_kinds(tree) + "\n" + coq_pins(pins(repo))
+        + translate_kinds(tree) + "\n(* ConditionEvaluator.visit_BoolOp: per-operand step and final result of `and` / `or` *)\n"
+        + translate_boolop(tree) + "\n" + coq_pins(pins(repo))
     )
 
 
